@@ -701,6 +701,28 @@ def prof_muttrav(g):
     g.emit('shape A')
 
 
+def prof_excl(g):
+    """C14: exclusivity of mutable access.  Histories over the full alphabet (so that leftover nodes,
+    reused slots and sub-views exist), with `alias` (addresses of all live mutable references) and
+    `par` (workers on the sub-views of a recursive split in parallel threads) in between."""
+    g.build('A', g.r.randint(2, 20), 'full')
+    for _ in range(g.r.randint(3, 10)):
+        r = g.r.random()
+        if r < 0.45:
+            g.mutate('A', 'full')
+        elif r < 0.7:
+            g.emit('alias A')
+        else:
+            g.emit('par A %d' % g.r.choice([0, 1, 1, 2, 2, 3, 4, 6]))
+            g.emit('obs A')
+        if g.r.random() < 0.3:
+            g.emit('shape A')
+    g.emit('alias A')
+    g.emit('par A %d' % g.r.choice([1, 2, 3]))
+    g.emit('obs A')
+    g.emit('arena A')
+
+
 def prof_shape(g):
     """C15: shape after every step"""
     alphabet = 'canon' if g.r.random() < 0.6 else 'full'
@@ -893,7 +915,7 @@ PROFILES = {
     'count_nov': prof_count_nov, 'setops': prof_setops, 'setops_mut': prof_setops_mut,
     'bulk': prof_bulk, 'retain': prof_retain, 'views': prof_views, 'find': prof_find, 'muttrav': prof_muttrav,
     'shape': prof_shape, 'arena': prof_arena, 'churn': prof_churn, 'hostbits': prof_hostbits,
-    'eq': prof_eq, 'panic': prof_panic, 'known': prof_known, 'alg': prof_alg,
+    'excl': prof_excl, 'eq': prof_eq, 'panic': prof_panic, 'known': prof_known, 'alg': prof_alg,
 }
 
 
